@@ -416,6 +416,23 @@ theorem conflict_move_cycle :
     Compatible t a b = false ∧ valid (applyOp t a) b = false ∧ valid (applyOp t b) a = false := by
   decide
 
+/-- round 6 (seed R6-C04): the spec needs no "a name is used once" assumption.  A folder deleted and a FILE created at
+    its name by one side, while the other side edits another file, is a valid, object-disjoint, compatible pair of histories;
+    the merge is the same in both orders and has the new FILE (tag 2) at the name, not the folder; `objMergeOk` accepts exactly
+    that pair of trees and rejects the tree in which the folder is resurrected (kernel-checked witness; the harness family
+    `replace-dir-by-file|write` of harness/c04_objects.py runs this shape on the real engine over schedules) -/
+theorem name_reuse_after_delete :
+    let t : OTree := [⟨1, none, "e", .dir⟩, ⟨2, none, "k", .file 1⟩]
+    let l : List OOp := [.delete 1, .create 3 none "e" 2]
+    let r : List OOp := [.write 2 3]
+    wfB t = true ∧ validSeq t l = true ∧ validSeq t r = true ∧ disjointSeqs l r = true ∧ CompatibleSeqs t l r = true ∧
+    objMerge t l r = objMerge t r l ∧
+    toPaths (objMerge t l r) = [(["k"], .file 3), (["e"], .file 2)] ∧
+    objMergeOk t l r [(["k"], .file 3), (["e"], .file 2)] [(["k"], .file 3), (["e"], .file 2)] = true ∧
+    objMergeOk t l r [(["k"], .file 3), (["e"], .dir), (["e.conflicted"], .file 2)]
+      [(["k"], .file 3), (["e"], .dir), (["e.conflicted"], .file 2)] = false := by
+  decide
+
 /-- … whereas a creation inside a folder and a move of that folder are compatible: they touch
     different objects although the paths are related -/
 theorem create_inside_vs_move_compatible :
